@@ -1019,9 +1019,103 @@ const JSON_ALPHABET: [u8; 24] = [
 
 pub const RULE: &str = "names: every 1-character ASCII name, every name of length <= 3 over an 8-letter alphabet containing '/', '+', '#', multi-byte letters (exhaustive), fixed and random Unicode names (valid and invalid) through validate_name, EoNBuilder::build (incl. missing ids), register_device (incl. duplicates) and AppEventLoop::new; faithfulness: (group, node[, device]) triples over a fixed pool x all 8 verbs (exhaustive over the pool) and random Unicode ids with random protobuf payloads, host ids x online x boundary and random timestamps for STATE in both written forms and both last wills; receive path: every topic of <= Ls segments over a 12-segment alphabet (exhaustive) x 3 payload classes, every verb segment of length <= 2 in 4- and 5-segment topics (exhaustive), mutated valid topics (inserted/removed/duplicated segments, non-UTF-8 bytes, flipped bytes, truncations), random topics, with valid / truncated / random protobuf and JSON payloads; certificate reader: every byte string of length <= 3 over a 24-byte JSON alphabet (exhaustive), grammar-generated certificates (both key orders, duplicate / missing / unknown keys with nested values, escaped keys, sequence form, whitespace, number forms around 2^64), their mutations, random JSON values and deep nesting. Non-trivial = the case contains at least one request besides `new`; distinct = distinct op lines (hashed).";
 
+
+/// C13, first sentence, on the topics a REAL edge node publishes on (not the ones the harness builds with the
+/// constructors): for ids that look like Sparkplug words - group / node / device ids equal to message-type
+/// names, to the namespace - every message a real EoN hands to its client, and its will, decodes to an
+/// event with the same ids and the same message kind. No model line; direct oracle.
+fn published_topics_scenario(out: &mut Out) {
+    use crate::mock::{mock_pair, runtime, set_clocks, settle, Kind};
+    use srad_eon::{EoNBuilder, MetricPublisher, NoMetricManager, SimpleMetricBuilder, SimpleMetricManager};
+    let groups = ["g", "NDATA", "DDATA", "NBIRTH", "DBIRTH", "NDEATH", "DDEATH", "NCMD", "DCMD", "spBv1.0", "STATEx"];
+    let nodes = ["n", "NDATA", "NBIRTH", "DDATA"];
+    let devs = ["d", "DDATA", "DBIRTH", "NDATA"];
+    out.begin_case("topic new", "ok");
+    out.set_desc("published-topics".into());
+    for g in groups {
+        for (k, n) in nodes.iter().enumerate() {
+            let d = devs[k % devs.len()];
+            let rt = runtime();
+            let (hub, client, el, feeder) = mock_pair();
+            let built = {
+                let _in = rt.enter();
+                catch(AssertUnwindSafe(|| {
+                    let nm = SimpleMetricManager::new();
+                    nm.register_metric(SimpleMetricBuilder::new("m", 1i32));
+                    EoNBuilder::new(el, client).with_group_id(g).with_node_id(*n).with_metric_manager(nm.clone()).build().map(|x| (x, nm))
+                }))
+            };
+            let ((eon, node), nm) = match built {
+                Ok(Ok(x)) => x,
+                _ => continue,
+            };
+            let _ = &nm;
+            rt.block_on(async {
+                set_clocks(1_000_000);
+                tokio::spawn(async move { eon.run().await });
+                let dm = SimpleMetricManager::new();
+                dm.register_metric(SimpleMetricBuilder::new("m", 1i32));
+                let dh = node.register_device(d, dm.clone());
+                feeder.push(Event::Online);
+                settle().await;
+                if let Ok(dh) = &dh {
+                    dh.enable();
+                    settle().await;
+                    dh.rebirth();
+                    settle().await;
+                }
+                node.rebirth();
+                settle().await;
+                if let Ok(dh) = &dh {
+                    dh.disable();
+                    settle().await;
+                }
+                feeder.push(Event::Offline);
+                settle().await;
+                feeder.push(Event::Online);
+                settle().await;
+                node.cancel().await;
+                settle().await;
+            });
+            drop(rt);
+            let mut seen = std::collections::BTreeSet::new();
+            for c in hub.calls() {
+                let want = match c.kind {
+                    Kind::NBirth => Some((MessageKind::Birth, false)),
+                    Kind::NDeath => Some((MessageKind::Death, false)),
+                    Kind::NData => Some((MessageKind::Data, false)),
+                    Kind::DBirth => Some((MessageKind::Birth, true)),
+                    Kind::DDeath => Some((MessageKind::Death, true)),
+                    Kind::DData => Some((MessageKind::Data, true)),
+                    _ => None,
+                };
+                let (Some((kind, is_dev)), Some(p)) = (want, c.payload.clone()) else { continue };
+                seen.insert(c.kind.name());
+                let ev = catch(AssertUnwindSafe(|| topic_and_payload_to_event(c.topic.clone().into_bytes(), p.encode_to_vec().into())));
+                let ok = match &ev {
+                    Ok(Event::Node(m)) => !is_dev && m.group_id == g && m.node_id == *n && m.message.kind == kind,
+                    Ok(Event::Device(m)) => is_dev && m.group_id == g && m.node_id == *n && m.device_id == d && m.message.kind == kind,
+                    _ => false,
+                };
+                if !ok {
+                    out.fail(
+                        "C13:published-topic-decodes",
+                        &format!("{}:group={}:node={}", c.kind.name(), g, n),
+                        format!("a real edge node (group {:?}, node {:?}, device {:?}) published its {} on `{}`, which decodes to {:?}", g, n, d, c.kind.name(), c.topic, ev.as_ref().map(|e| crate::mock::event_name(e))),
+                    );
+                }
+            }
+            out.count(&format!("published-topics:kinds-seen:{}", seen.len()));
+        }
+    }
+    out.nontrivial();
+    out.count("published-topics");
+}
+
 pub fn run(args: &Args, out: &mut Out) -> &'static str {
     let mut rng = Rng::new(args.seed);
     let th = args.thorough();
+    published_topics_scenario(out);
 
     // ---- 1. name validation and constructors ----
     {
